@@ -19,11 +19,20 @@ if args_:
     props = args_[0].split('=')[1].split(',')
     sys.argv = [a for a in sys.argv if not a.startswith('--props=')]
 mods = {p: importlib.import_module(f'rules.{p.lower()}') for p in props}
+BASE_FILE = '/var/tmp/refac_base.json'
 base = {}
-an0 = report.Analysis()
-for p, m in mods.items():
-    code, ctx, new, hits = report.run_property(m, an0, 'quick', write=False, quiet=True)
-    base[p] = (code, len(hits))
+if '--use-base' in sys.argv and os.path.exists(BASE_FILE):
+    base = {k: tuple(v) for k, v in json.load(open(BASE_FILE)).items()}
+    sys.argv = [a for a in sys.argv if a != '--use-base']
+else:
+    sys.argv = [a for a in sys.argv if a != '--use-base']
+    an0 = report.Analysis()
+    for p, m in mods.items():
+        code, ctx, new, hits = report.run_property(m, an0, 'quick', write=False, quiet=True)
+        base[p] = (code, len(hits))
+    if '--write-base' in sys.argv:
+        json.dump(base, open(BASE_FILE, 'w'))
+        sys.exit(0)
 def one(d):
     patch = os.path.join(d, 'patch.diff')
     if not os.path.exists(patch):
